@@ -395,8 +395,14 @@ def run_impl_isolating(cmd, lines, env=None, timeout=600, per_case_timeout=60):
     pos = 0
     n = len(lines)
     crashes = 0
+    hangs = 0
     while pos < n:
-        rc, out, err = run_lines(cmd, lines[pos:], env=env, timeout=timeout)
+        # a hanging implementation must not cost the whole batch timeout again and again: the budget is
+        # proportional to the number of remaining cases, and after a few hangs the rest is not run
+        budget = min(timeout, 90 + 1.5 * (n - pos))
+        rc, out, err = run_lines(cmd, lines[pos:], env=env, timeout=budget)
+        if rc == -9:
+            hangs += 1
         got = [l for l in out if l.startswith("R ")]
         results.extend(got[: n - pos])
         pos += len(got)
@@ -419,8 +425,8 @@ def run_impl_isolating(cmd, lines, env=None, timeout=600, per_case_timeout=60):
         else:
             results.append("R " + san_summary(err1 if err1 else err, rc1))
         pos += 1
-        if crashes > 200:
-            results.extend(["R CRASH (not run: too many crashes)"] * (n - pos))
+        if crashes > 200 or hangs > 4:
+            results.extend(["R CRASH (not run: too many crashes or hangs before this case)"] * (n - pos))
             break
     return results
 
